@@ -100,8 +100,6 @@ package statebackend
 //@   logged
 //@   arith int
 //@   nosafe
-//@   requires stateUpdate != nil && stateUpdate.StateDiff != nil
-//@   modifies *
 //@   assigns casmDropped, casmRestored, calls_DeleteCasm, arg_DeleteCasm_w, arg_DeleteCasm_classHash, calls_WriteCasm, arg_WriteCasm_w, arg_WriteCasm_classHash, arg_WriteCasm_metadata
 //@   callsite DeleteClassCasmHashMetadata@*: through_the_batch: $0 == w
 //@   callsite WriteClassCasmHashMetadata@*: through_the_batch: $0 == w
@@ -126,7 +124,7 @@ package statebackend
 //@   arith int
 //@   nosafe
 //@   logged
-//@   assigns calls_revertCasmHashMetadata, arg_revertCasmHashMetadata_r, arg_revertCasmHashMetadata_w, arg_revertCasmHashMetadata_stateUpdate, calls_BatchDelete, arg_BatchDelete_key, calls_DeleteTxs, arg_DeleteTxs_reader, arg_DeleteTxs_writer, arg_DeleteTxs_blockNumber, calls_DeleteStateUpdate, arg_DeleteStateUpdate_w, arg_DeleteStateUpdate_blockNum, calls_DeleteChainHeight, arg_DeleteChainHeight_w, calls_WriteChainHeight, arg_WriteChainHeight_w, arg_WriteChainHeight_height
+//@   assigns casmDropped, casmRestored, calls_DeleteCasm, arg_DeleteCasm_w, arg_DeleteCasm_classHash, calls_WriteCasm, arg_WriteCasm_w, arg_WriteCasm_classHash, arg_WriteCasm_metadata, calls_revertCasmHashMetadata, arg_revertCasmHashMetadata_r, arg_revertCasmHashMetadata_w, arg_revertCasmHashMetadata_stateUpdate, calls_BatchDelete, arg_BatchDelete_key, calls_DeleteTxs, arg_DeleteTxs_reader, arg_DeleteTxs_writer, arg_DeleteTxs_blockNumber, calls_DeleteStateUpdate, arg_DeleteStateUpdate_w, arg_DeleteStateUpdate_blockNum, calls_DeleteChainHeight, arg_DeleteChainHeight_w, calls_WriteChainHeight, arg_WriteChainHeight_w, arg_WriteChainHeight_height
 //@   callsite revertCasmHashMetadata@*: into_the_batch: $1 == writer && $2 == stateUpdate
 //@   callsite DeleteTransactionsAndReceipts@*: this_block_into_the_batch: $1 == writer && $2 == blockNumber
 //@   callsite DeleteStateUpdateByBlockNum@*: this_block_into_the_batch: $0 == writer && $1 == blockNumber
